@@ -183,3 +183,64 @@ func (g *Gen) GovStory(id string, blocks int) *Scenario {
 	}
 	return sc
 }
+
+// GovFeeStory: a configuration proposal that raises the minimum fee passes; somebody sends the
+// finalise transaction himself right after the deciding vote, and ordinary transfers at the old
+// fee price go on in every block.  What the fee check of a block accepts must not depend on
+// whether a node's mempool has seen that finalise request (C07): the handler's CheckTx run
+// updates the option copies the application keeps in memory.
+func (g *Gen) GovFeeStory(id string, blocks int) *Scenario {
+	sc := &Scenario{ID: id, Genesis: g.G}
+	po := g.G.Proposal
+	type ev struct {
+		h  int
+		tx STx
+	}
+	var evs []ev
+	add := func(h int, kind string, a A) {
+		if h >= 1 && h <= blocks {
+			evs = append(evs, ev{h, STx{Req: TxReq{Kind: kind, A: a}, Path: "honest"}})
+		}
+	}
+	c := 3 + g.R.Intn(2) // the vote snapshot needs the validators known as active (from block 3 on)
+	upd := []string{"feeOption.minFeeDecimal:1", "feeOption.minFeeDecimal:0", "onsOptions.perBlockFees:20"}[g.R.Intn(3)]
+	add(c, "PROP_CREATE", A{"id": "p1", "type": "config", "by": "a1", "amt": int(po.InitialFunding), "fundDL": c + 2, "goal": po.FundingGoal,
+		"voteDL": int64(c+2) + po.VotingDeadline, "pass": po.PassPct, "update": upd})
+	add(c+1, "PROP_FUND", A{"id": "p1", "by": "a2", "amt": int(po.FundingGoal)})
+	// v1 holds 5 of 9: its yes decides; the user-sent finalise goes into the block after the deciding vote (its mempool
+	// check runs before that block begins, the application's own finalisation at that block's end), sometimes one block later
+	vh := c + 2 + g.R.Intn(2)
+	add(vh, "PROP_VOTE", A{"id": "p1", "by": "sv1", "v": "v1", "op": 1})
+	fh := vh + 1
+	if g.R.Intn(4) == 0 {
+		fh++
+	}
+	// a transfer at the old fee price that the block's proposer took into its mempool before the finalise request
+	// arrived; it comes first in the block
+	add(fh, "SEND", A{"from": "a3", "to": "a1", "amt": 77})
+	evs[len(evs)-1].tx.Path = "direct"
+	add(fh, "PROP_FINALIZE", A{"id": "p1", "by": g.pick(g.accts)})
+	for h := 1; h <= blocks; h++ {
+		for k := 0; k < 1+g.R.Intn(2); k++ {
+			add(h, "SEND", A{"from": g.pick(g.accts), "to": g.pick(g.accts), "amt": g.rng(1, 500)})
+			if g.R.Intn(2) == 0 {
+				// proposed by a node whose mempool took it before the finalise request arrived anywhere
+				evs[len(evs)-1].tx.Path = "direct"
+			}
+		}
+		if g.R.Intn(3) == 0 {
+			add(h, "DOM_CREATE", A{"owner": g.pick(g.accts), "benef": "a1", "name": g.pick(domNames), "uri": "", "amt": int(g.G.Ons.Base) + g.rng(20, 90)})
+		}
+	}
+	sort.SliceStable(evs, func(i, j int) bool { return evs[i].h < evs[j].h })
+	for h := 1; h <= blocks; h++ {
+		b := SBlock{DT: int64(g.rng(500000, 1500000)), Proposer: g.pick(g.vals)}
+		for _, e := range evs {
+			if e.h == h {
+				b.Txs = append(b.Txs, e.tx)
+			}
+		}
+		sc.Blocks = append(sc.Blocks, b)
+	}
+	return sc
+}
